@@ -156,8 +156,17 @@ pub fn authentic(
             if srep.get("VER") != Some(&VER_IETF13[..]) {
                 return Err("ver");
             }
+            // "the list of versions the server supports": draft-13 is in it, every entry is a version
+            // this server speaks (classic 0, draft-13), and it is a list of versions — no entry twice
             let vers = srep.get("VERS").ok_or("ver")?;
             if vers.len() % 4 != 0 || !vers.chunks(4).any(|c| c == VER_IETF13) {
+                return Err("ver");
+            }
+            let entries: Vec<&[u8]> = vers.chunks(4).collect();
+            if entries.iter().any(|e| *e != VER_IETF13 && *e != crate::proto::VER_CLASSIC) {
+                return Err("ver");
+            }
+            if (0..entries.len()).any(|a| (0..a).any(|b| entries[a] == entries[b])) {
                 return Err("ver");
             }
         }
